@@ -194,6 +194,11 @@ func prepare() *prepInfo {
 	fmt.Print(out)
 	rb, _ := os.ReadFile(S + "/instrument.json")
 	_ = json.Unmarshal(rb, &info.InstrReport)
+	if c, ok := info.InstrReport["counts"].(map[string]any); ok {
+		if n, ok := c["hash"].(float64); ok && n > 0 {
+			hashSites = int(n)
+		}
+	}
 
 	// 7. added files
 	copyFile(verifDir+"/overlays/gen_restart.go.txt", S+"/repo/pkg/go/gen/zz_verif_restart.go")
@@ -343,6 +348,25 @@ type aggregate struct {
 	crashed []string
 }
 
+// hashSites: number of hash computations the instrumenter put behind the
+// weak-hash seam (0 on the unchanged tree). When there are any, half of the
+// worker processes run with weakened hashes (simrt/hash.go): the mode is a
+// function of the shard index and recorded in every violation's batch position.
+var hashSites int
+
+func weakHashBits(shard int) int {
+	if hashSites == 0 {
+		return 0
+	}
+	switch shard % 4 {
+	case 2:
+		return 8
+	case 3:
+		return 3
+	}
+	return 0
+}
+
 func runShards(bin string, engine, prop, tier string, seed uint64, n int, maxSecs float64, nshards int, shardOffset int, race bool, agg *aggregate) {
 	S := scratch
 	var wg sync.WaitGroup
@@ -360,7 +384,7 @@ func runShards(bin string, engine, prop, tier string, seed uint64, n int, maxSec
 				args = append(args, "-race")
 			}
 			cmd := exec.Command(bin, args...)
-			cmd.Env = append(os.Environ(), "GOMAXPROCS=1", "GORACE=log_path="+S+"/race-"+tag+" halt_on_error=0 exitcode=0 atexit_sleep_ms=0 history_size=4", "VERIF_RACELOG="+S+"/race-"+tag)
+			cmd.Env = append(os.Environ(), "GOMAXPROCS=1", "GORACE=log_path="+S+"/race-"+tag+" halt_on_error=0 exitcode=0 atexit_sleep_ms=0 history_size=4", "VERIF_RACELOG="+S+"/race-"+tag, "VERIF_WEAKHASH="+strconv.Itoa(weakHashBits(sh)))
 			logf, _ := os.Create(fmt.Sprintf("%s/log-%s.txt", S, tag))
 			cmd.Stderr = logf
 			cmd.Stdout = logf
